@@ -1,4 +1,109 @@
-import LabreaModel.Eval
+/-
+  C12 — failures surface as EvaluationError with source and cause; never stored.
+
+  Theorems about the interpreter model `ev` (LabreaModel/Eval.lean), for EVERY environment (user
+  callables, overload tables, dataset records), expression, options dictionary, state and fuel.
+-/
+import LabreaModel.EvalLemmas
 namespace Labrea
-theorem c12_placeholder : True := trivial
+
+/-- the failure is an `EvaluationError` whose `source` is node `id` -/
+def SourcedAt (id : Nat) (err : Err) : Prop :=
+  ∃ f rest, err = f :: rest ∧ f.src = id ∧ err.isEvaluationError = true
+
+theorem wrapEvaluate_sourced {α} (id : Nat) (m : M α) (s : St) (err : Err) (s' : St)
+    (h : wrapEvaluate id m s = some (.error err, s')) : SourcedAt id err := by
+  unfold wrapEvaluate handle at h
+  split at h
+  · rename_i e0 s0 hm
+    cases e0 with
+    | nil =>
+      simp only [raise] at h
+      cases h
+      exact ⟨evalFrame id, [], rfl, rfl, rfl⟩
+    | cons f rest =>
+      simp only [] at h
+      by_cases hc : (Err.isEvaluationError (f :: rest) && f.src == id) = true
+      · simp only [hc, if_true, raise] at h
+        cases h
+        simp only [Bool.and_eq_true, beq_iff_eq] at hc
+        exact ⟨f, rest, rfl, hc.2, hc.1⟩
+      · simp only [hc, raise] at h
+        cases h
+        exact ⟨evalFrame id, f :: rest, rfl, rfl, rfl⟩
+  · rename_i hne
+    exact absurd h (by
+      intro h'
+      exact hne err s' h')
+
+/-- **error_source.** Whatever fails inside `evaluate` of node `e` — a missing option, an unmatched
+    switch or case, an exception of any class raised by user code — surfaces as an `EvaluationError`
+    whose source is `e` itself (handlers that substitute a value do not fail). -/
+theorem error_source (env : Env) (n : Nat) (e : Expr) (o : V) (s : St) (err : Err) (s' : St)
+    (h : ev env n .evaluate e o s = some (.error err, s')) : SourcedAt e.id err := by
+  cases n with
+  | zero => simp [ev, outOfFuel] at h
+  | succ n =>
+    unfold ev at h
+    simp only [bind, M.bnd, emit] at h
+    cases hs : env.subst with
+    | none =>
+      simp only [hs] at h
+      exact wrapEvaluate_sourced _ _ _ _ _ h
+    | some p =>
+      obtain ⟨sid, v⟩ := p
+      simp only [hs] at h
+      by_cases hc : (sid == e.id && sid != 0) = true
+      · simp [hc, pure, M.ret] at h
+      · simp only [hc] at h
+        exact wrapEvaluate_sourced _ _ _ _ _ h
+
+/-- the `__cause__` chain ends in an original exception: a missing option, an unmatched switch / case,
+    an insufficient-information error or an exception raised by user code or the runtime — never in a
+    bare re-wrapping `EvaluationError` -/
+def ReachesOrigin (err : Err) : Prop := ∃ f, err.getLast? = some f ∧ f.cls ≠ .evaluation
+
+theorem reachesOrigin_pred : ErrPred ReachesOrigin where
+  other c := ⟨{ cls := .other c }, rfl, by simp⟩
+  cons f e h := by
+    obtain ⟨g, hg, hc⟩ := h
+    cases e with
+    | nil => simp at hg
+    | cons a as => exact ⟨g, by simpa [List.getLast?_cons_cons] using hg, hc⟩
+  single f hf := ⟨f, rfl, hf⟩
+  ofNil h := by obtain ⟨_, hg, _⟩ := h; simp at hg
+
+theorem anyRel : CacheRel (fun _ _ => True) where
+  refl _ := trivial
+  trans _ _ := trivial
+  emit _ _ := trivial
+  setCache _ _ _ := trivial
+  setScripts _ _ := trivial
+
+/-- **cause_chain.** Every failure of every operation (`evaluate`, `validate`, `keys`, `explain`) of
+    every expression carries a cause chain that leads, through the nested objects, to the original
+    exception. -/
+theorem cause_chain_reaches_origin (env : Env) (n : Nat) (op : Op) (e : Expr) (o : V) (s : St) (err : Err)
+    (s' : St) (h : ev env n op e o s = some (.error err, s')) : ReachesOrigin err :=
+  ((spec_ev anyRel reachesOrigin_pred env n op e o).run s _ s' h).2 err rfl
+
+/-- the innermost frame of a missing-option failure carries the key -/
+theorem missing_key_reported (env : Env) (run : Run) (n id : Nat) (key : String) (o : V) (s : St)
+    (hk : getDotted key o = .keyErr) :
+    ∃ s', optionOp env run n (.option id key Option.none Option.none) id key Option.none Option.none .evaluate o s
+        = some (.error [{ cls := .keyNotFound, src := id, key := key }], s') := by
+  simp [optionOp, readKey, bind, M.bnd, emit, pure, M.ret, hk, raise, keyNotFound]
+
+/-! non-vacuity: a concrete failing evaluation (`Option('A') >> f` on `{}`) -/
+def c12Env : Env :=
+  { β := fun _ _ _ => .error "ValueError", binds := fun _ _ => .error "x",
+    ov := fun _ => default, ds := fun _ => default, cacheKind := fun _ => .memory }
+
+def c12Witness : Option (Except Err V × St) :=
+  ev c12Env 5 .evaluate (.apply 3 (.option 1 "A" Option.none Option.none) (.value 2 (.fn "f" [] []))) (.dict []) {}
+
+example : (match c12Witness with
+    | some (.error err, _) => err == [evalFrame 3, { cls := .keyNotFound, src := 1, key := "A" }]
+    | _ => false) = true := by decide +kernel
+
 end Labrea
